@@ -4,6 +4,9 @@ import common, zoo as zoolib, filelevel, workloads, iocommon
 from common import Pair, proof_stage, rebuild_tools, build_pqh, build_zoo, Lock, TRUSTED_BASE
 
 MODULE = "PQ.Props.C16"
+# the same statement for the files of the INDEPENDENT writer (any page split, codec, optional metadata, empty row groups)
+EXTRA_MODULES = ["PQ.Lemmas.ForeignIntrospect"]
+EXTRA_THEOREMS = ["PQ.introspection_specWrite", "PQ.introspection_specWrite_ne", "PQ.pageHeadersAt_specWrite", "PQ.pageHeadersAt_spCover", "PQ.pageHeadersAt_spAll", "PQ.pageHeadersAt_spZero"]
 THEOREMS = ["PQ.C16." + t for t in ("at_zero_one_header", "meta_is_footer", "readMetaData_runWriter", "readMetaData_eq_parseFile", "pageHeadersAt_chunk", "pageHeadersAt_chunk_cover", "pageHeadersAt_chunk_zero", "pageHeadersAt_runWriter", "pageHeaders_runWriter", "fileHdrs_facts", "introspection_runWriter")]
 
 
@@ -14,7 +17,7 @@ def run(chk):
         cov["steps"] = rebuild_tools(chk.log)
         cov["steps"]["zoo"] = build_zoo(chk.log)
         build_pqh(chk.log)
-        pr = proof_stage(chk, MODULE, THEOREMS)
+        pr = proof_stage(chk, MODULE, THEOREMS + EXTRA_THEOREMS, EXTRA_MODULES, audit_imports=EXTRA_MODULES)
     pair = Pair(chk.log)
     zs = filelevel.load_zoos(pair, workloads.ZOOS)
     cases = iocommon.corpus(chk, pair, zs, thorough, per_zoo=(8 if thorough else 3))
